@@ -68,9 +68,13 @@ def generate(seed, tier):
                 body.insert(wrng.randrange(len(body)), ["arm_iofault", {"skip": wrng.randint(0, 3), "errno": wrng.choice(("EIO", "ENOSPC"))}])
                 end = ["raise_if_not_failed"]
             txs.append({"timeout": wrng.choice((0.0, 0.3, 2.0, 30.0)), "delay": wrng.choice((0.05, 0.1)),
-                        "body": body, "end": end})
+                        "body": body, "end": end,
+                        "think": (wrng.choice((0.05, 0.3, 1.0, 3.0)) if wrng.random() < 0.35 else 0)})
+        app_plan = [({"open": mrng.randint(0, 3), "close": mrng.randint(0, 2)} if mrng.random() < 0.5 else None) for _ in txs]
         actors.append({"kind": "writer", "name": "W%d" % wi, "txs": txs,
-                       "own_process": mrng.random() < 0.5})
+                       "own_process": mrng.random() < 0.5,
+                       "keep_errors": mrng.choice(("none", "none", "next", "end")),
+                       "app_plan": app_plan})
     # the AsyncWriter and BufferedWriter front-ends race the plain writers in 35% of the runs
     if mrng.random() < 0.35:
         for fi in range(mrng.randint(1, 2)):
@@ -210,6 +214,45 @@ class FrontWriter(object):
         s.count("front_commits_" + self.kind)
 
 
+class AppWriter(SchedWriter):
+    """A plain writer inside an application that has files of its own open: before a
+    transaction it may open a few unrelated files and it closes them some transactions later,
+    so descriptor numbers are not the neat 0,1,2.. of a process that only ever writes one index."""
+
+    app_plan = ()
+
+    def run_tx(self, tx):
+        from whoosim import simos as SO
+        s = self.s
+        i = self.txs.index(tx) if tx in self.txs else 0
+        plan = self.app_plan[i] if i < len(self.app_plan) else None
+        if plan:
+            proc = s.k.current.proc
+            for _ in range(plan.get("close", 0)):
+                if self.app_fds:
+                    fd = self.app_fds.pop(0)
+                    try:
+                        s.os._close_fd(proc, fd)
+                    except OSError as e:
+                        # nobody but the application knows this descriptor: the library closed a number it did not own
+                        raise Violation("lockerror_without_side_effects", "%s: the application's own descriptor %d was closed behind its back (%s)"
+                                        % (self.name, fd, e), sig="foreign_descriptor_closed")
+            for j in range(plan.get("open", 0)):
+                fd, _ = s.os._open_fd("/app_%s_%d_%d.log" % (self.name, i, j), SO.O_CREAT | SO.O_RDWR)
+                self.app_fds.append(fd)
+        if tx.get("think"):
+            s.k.sleep(tx["think"])      # the application does something else for a while
+        return SchedWriter.run_tx(self, tx)
+
+
+def _plain(s, a):
+    w = AppWriter(s, a["name"], a["txs"], own_process=a.get("own_process", True))
+    w.keep_errors = a.get("keep_errors", "none")
+    w.app_plan = a.get("app_plan") or ()
+    w.app_fds = []
+    return w
+
+
 def check_history(s, writers):
     holds = sorted(s.all_holds, key=lambda h: h[0])
     # mutual exclusion by effects
@@ -278,7 +321,7 @@ def execute(record, trace=False):
     try:
         try:
             s.setup_index()
-            writers = [SchedWriter(s, a["name"], a["txs"], own_process=a.get("own_process", True))
+            writers = [_plain(s, a)
                        if a.get("kind", "writer") == "writer" else
                        FrontWriter(s, a["name"], a["kind"], a["txs"], own_process=a.get("own_process", True))
                        for a in record["actors"]]
